@@ -324,4 +324,9 @@ def explainedByCounter (base : Nat) (rows : List (Nat × Nat)) : Bool :=
   let s := runFrom { counter := base, handed := [] } sched
   s.handed.reverse == sorted
 
+/-- schedule independence of a reply list: every pool's reply equals the first one's (the 1-thread pool) -/
+def allEqualFirst {ρ : Type} [BEq ρ] : List ρ → Bool
+  | [] => true
+  | r :: rs => rs.all (fun x => x == r)
+
 end Sage.C11
